@@ -135,12 +135,9 @@ end Mat
 
 /-- why one operation of the real code does not yield a container -/
 inductive Fail where
-  | abortD6        -- CSR::convert(CSCR): CSCR matrix with an empty row / without entries (assertion; open finding D6)
+  | abortD10       -- CSR::convert(CSCR) of a CSCR matrix without entries (assertion used_elements > 0; open finding D10)
   | abortD7        -- Banded::convert(CSR): CSR matrix without entries (assertion; open finding D7)
   | abortPermSize  -- permute: a permutation whose size is not the matrix dimension (specified assertion)
-  | crashD1        -- CSR::permute on a matrix without entries (null row_ptr; open finding D1)
-  | crashD3        -- CSCR::convert(CSR) of a matrix without entries and with rows (null row_ptr; open finding D3)
-  | abortD3        -- … with 0 rows: the CSCR array constructor asserts non-empty arrays (same finding D3)
   | crashD5        -- Graph(as_is, csr) of a matrix without entries and with rows (std::out_of_range; open finding D5)
   | notApplicable  -- the format has no such member
   deriving DecidableEq, Repr
@@ -153,7 +150,7 @@ variable {α : Type}
 def failure (m : Mat α) : Op → Option Fail
   | .tocsr =>
     match m with
-    | .cscr B => if B.usedElements = 0 ∨ B.usedRows < B.rows then some .abortD6 else none
+    | .cscr B => if B.usedElements = 0 then some .abortD10 else none
     | .dense _ => some .notApplicable
     | _ => none
   | .tobanded =>
@@ -163,7 +160,7 @@ def failure (m : Mat α) : Op → Option Fail
     | _ => some .notApplicable
   | .tocscr =>
     match m with
-    | .csr A => if A.usedElements = 0 then (if A.rows = 0 then some .abortD3 else some .crashD3) else none
+    | .csr _ => none
     | .cscr _ => none
     | _ => some .notApplicable
   | .clone _ => none
@@ -188,7 +185,6 @@ def failure (m : Mat α) : Op → Option Fail
     | .csr A =>
       if p.size = 0 ∧ q.size = 0 then none
       else if p.size ≠ A.rows ∨ q.size ≠ A.cols then some .abortPermSize
-      else if A.usedElements = 0 then some .crashD1
       else none
     | _ => some .notApplicable
   | .it => none
@@ -202,8 +198,8 @@ def pre (m : Mat α) (o : Op) : Bool := (m.failure o).isNone
 
 end Mat
 
-/-- outcome of one operation of the code as it is: like `Res`, plus the crashes of the open findings D1 / D3 / D5,
-    where `Mat.step` shows the intended result instead -/
+/-- outcome of one operation of the code as it is: like `Res`, plus the crash of the open finding D5, where `Mat.step`
+    shows the intended result instead -/
 inductive ResC (α : Type) where
   | ok (m : Mat α)
   | abort
@@ -215,8 +211,7 @@ variable {α : Type}
 
 def stepCode [Zero α] (m : Mat α) (o : Op) : ResC α :=
   match m.failure o with
-  | some .crashD1 | some .crashD3 | some .crashD5 => .crash
-  | some .abortD3 => .abort
+  | some .crashD5 => .crash
   | _ => match m.step o with
     | .ok m' => .ok m'
     | .abort => .abort
